@@ -11,6 +11,7 @@
 package interp
 
 import (
+	"errors"
 	"fmt"
 	"io"
 	"strings"
@@ -58,6 +59,8 @@ var ops = map[int]string{
 	OR_ASSIGN:  "|=",
 }
 
+var errBailout = errors.New("bailout")
+
 type lexer struct {
 	env   *ExecEnv
 	r     io.RuneScanner
@@ -98,7 +101,7 @@ func (l *lexer) run() {
 	defer func() {
 		close(l.token)
 
-		if e := recover(); e != nil {
+		if e := recover(); e != nil && e != errBailout {
 			// re-panic
 			panic(e)
 		}
@@ -352,7 +355,7 @@ func (l *lexer) emit(typ int) {
 	case l.token <- tok:
 	case <-l.cancel:
 		// bailout
-		panic(nil)
+		panic(errBailout)
 	}
 }
 
